@@ -64,10 +64,12 @@ def _subs(tier):
             params = [['tc', 1, T], ['c1', 1, T], ['c2', 0, T]] if how != 'init' else [['c1', 1, T], ['c2', 0, T]]
             out.append({'name': f'late-{kind}-{how}', 'shape': {'mode': 'late', 'kind': kind, 'how': how}, 'params': params})
     # N new System, A create asset, S simulate the latest system, O simulate the first (outdated once a second exists)
-    seqs = ['NAS', 'NASAS', 'NANAS', 'NASNO', 'NAASS', 'NSASAS', 'NANAOS'] if tier == 'quick' else \
-        ['NAS', 'NASAS', 'NANAS', 'NASNO', 'NAASS', 'NSASAS', 'NANAOS', 'NANASS', 'NASNAS', 'NAASNAOSS', 'NSSAS', 'NASSAS', 'NASNAOAS']
+    # M two in-process runs through System.simulate_multiple_times (each creates its own system and an asset)
+    seqs = ['NAS', 'NASAS', 'NANAS', 'NASNO', 'NAASS', 'NSASAS', 'NANAOS', 'MAOS', 'NAMOAS'] if tier == 'quick' else \
+        ['NAS', 'NASAS', 'NANAS', 'NASNO', 'NAASS', 'NSASAS', 'NANAOS', 'NANASS', 'NASNAS', 'NAASNAOSS', 'NSSAS', 'NASSAS', 'NASNAOAS',
+         'MAOS', 'NAMOAS', 'MNAOS', 'NASMAS']
     for s in seqs:
-        params = [[f'd{i}', 0, T] for i, k in enumerate(s) if k in 'SO']
+        params = [[f'd{i}', 0, T] for i, k in enumerate(s) if k in 'SOM']
         out.append({'name': f'life-{s}', 'shape': {'mode': 'life', 'seq': s}, 'params': params})
     return out
 
@@ -77,14 +79,14 @@ def jobs(tier):
 
 
 def bounds_text(tier):
-    return ('(a) lifecycle sequences ' + ('of 3-6' if tier == 'quick' else 'of 3-8') + ' operations over {new System, create asset, simulate} with symbolic '
+    return ('(a) lifecycle sequences ' + ('of 3-6' if tier == 'quick' else 'of 3-8') + ' operations over {new System, create asset, simulate, two in-process runs through simulate_multiple_times} with symbolic '
             'durations; (b) one late-creation cell per Asset class of simprocesd.model (15 kinds), created at a symbolic instant tc from '
             'inside an event, between two simulate calls, and during the initialisation pass of the first simulate (from a start-up action), compared with a twin created before the start; cycle times / durations / '
             'intervals symbolic')
 
 
 def required_goals(tier):
-    return ['old_system_refused', 'asset_registered_with_latest_system', 'continued_without_reinit', 'late_cell_matched_twin',
+    return ['systems_created_by_simulate_multiple_times', 'old_system_refused', 'asset_registered_with_latest_system', 'continued_without_reinit', 'late_cell_matched_twin',
             'created_between_runs', 'created_inside_event', 'created_during_initialisation']
 
 
@@ -341,6 +343,22 @@ def _life(shape, args, ctx):
                 if n_sim.get(len(systems) - 1):
                     ctx.require(inits.get(id(a), 0) == 1 and a.env is systems[-1].env,
                                 'asset created after the first simulate was not initialised immediately')
+            elif k == 'M':
+                # two runs through simulate_multiple_times in the calling process: each run's system is created by the helper
+                base = len(systems)
+
+                def fn(system, idx, i=i):
+                    systems.append(system)
+                    a = Sink(f'm{idx}')
+                    assets.append((a, len(systems) - 1))
+                    ctx.require(a in system._assets and all(a not in s._assets for s in systems[:-1]),
+                                'asset did not register with the most recently created system')
+                    system.simulate(args[f'd{i}'], print_summary=False)
+                    n_sim[len(systems) - 1] = 1
+                res = System.simulate_multiple_times(fn, 2, 0)
+                ctx.require(len(res) == 2 and len(systems) == base + 2 and res[0] is systems[base] and res[1] is systems[base + 1],
+                            'simulate_multiple_times did not return one system per index in index order')
+                ctx.goal('systems_created_by_simulate_multiple_times')
             elif k in 'SO':
                 j = len(systems) - 1 if k == 'S' else 0
                 s = systems[j]
